@@ -64,6 +64,10 @@ type VerifDumpOpts struct {
 	// NoStamps omits LastActivity/LastNonPing/lastClientMessageId/lastProcessed
 	// (used to decide whether a line changed anything but the per-message stamps).
 	NoStamps bool
+	// NoTimes abstracts every time to zero / non-zero (deep BFS with 1 s steps: no time threshold is
+	// crossed within the depth bound, so states that differ only in when something happened have
+	// the same futures).
+	NoTimes bool
 }
 
 type vdumper struct {
@@ -74,6 +78,10 @@ type vdumper struct {
 func (d *vdumper) t(name string, t time.Time) {
 	if t.IsZero() {
 		fmt.Fprintf(&d.b, " %s=Z", name)
+		return
+	}
+	if d.o.NoTimes {
+		fmt.Fprintf(&d.b, " %s=N", name)
 		return
 	}
 	if d.o.RelTime {
@@ -130,7 +138,9 @@ func (d *vdumper) session(s *Session) {
 		fmt.Fprintf(&d.b, " cmid=%d", s.lastClientMessageId)
 	}
 	d.t("captcha", s.LastSolvedCaptcha)
-	if d.o.RelTime {
+	if d.o.NoTimes {
+		// omitted
+	} else if d.o.RelTime {
 		fmt.Fprintf(&d.b, " created=@%d", d.o.RelNow-s.Created)
 	} else {
 		fmt.Fprintf(&d.b, " created=%d", s.Created)
@@ -196,7 +206,7 @@ func VerifDump(i *IRCServer, o VerifDumpOpts) string {
 		prefix = i.ServerPrefix.String()
 	}
 	fmt.Fprintf(&d.b, "SERVER prefix=%q", prefix)
-	if !o.RelTime {
+	if !o.RelTime && !o.NoTimes {
 		fmt.Fprintf(&d.b, " creation=%d", i.ServerCreation.UnixNano())
 	}
 	if !o.RelTime && !o.NoStamps {
